@@ -1,4 +1,7 @@
 import Vanguard.Lemmas.Serve
+import Vanguard.Lemmas.Frame
+import Vanguard.Lemmas.Outcome
+import Vanguard.Lemmas.ReadReach
 /-!
   C11 — No input from client or backend can crash or wedge the transcoder.
 
@@ -14,7 +17,16 @@ import Vanguard.Lemmas.Serve
   loop spin (seeded change C11_1).  The same is proved for **the loop of `transformingWriter.Write`**
   (`twLoop_fuel`, `twLoop_enough`; the invariant it needs - fewer than five buffered bytes while an
   envelope is collected - is kept by the loop, `twLoop_keeps_inv`, and established by `reset`).
-  Partial: panic-freedom of the whole `serve` is not a theorem; it is covered by the
+  **No `WriteHeader` and no `Write` of any handler ever panics** (`handler_writes_never_panic`): `Ready` -
+  the response is consistent (C03's `Good`) and, once `WriteHeader` ran, the response is latched in an
+  error or a well-formed body writer is installed - is an invariant of every handler script
+  (`runScript_ready`: any reads of any size, header changes, `WriteHeader`, `Write` with any bytes split
+  anywhere, `Flush`, `Close`), and in a `Ready` state `Write` and `WriteHeader` return without a panic
+  (`rwWrite_safe`, `rwWriteHeader_no_panic`).  Underneath: the loops of both writers never take a
+  slice out of range, never miss a sink or a decoder, never run out of fuel, and hand back a
+  well-formed writer (`twLoop_safe`, `twWrite_safe`, `ewLoop_safe`, `ewWrite_safe`).
+  Partial: panic-freedom of the request readers, of `responseWriter.Close` and hence of the whole
+  `serve` is not a theorem; it is covered by the
   correspondence, where `panic=0` is part of every compared observation, and a watchdog in the
   harness reports a call that does not return.
 -/
@@ -459,5 +471,917 @@ theorem twLoop_keeps_inv (w : World) (tb : Tables) : ∀ (n : Nat) (st : St) (t 
                   rcases hwr' rfl hpf with hl | he
                   · intro h; simp [hl] at h
                   · intro _ _; simp [he]
+
+/-! ### no panic in the response writers, for whole `Write` calls -/
+
+theorem writeDown_no_panic (w : World) (st : St) (b : Bytes) : (writeDown w st b).2.2 = false := by
+  unfold writeDown
+  split
+  · split
+    · exact reportError_no_panic w st _
+    · rfl
+  · rfl
+
+theorem handleEndMessage_no_panic (w : World) (tb : Tables) (st : St) (c : Bool) (d : Bytes) (r : Bool) :
+    (handleEndMessage w tb st c d r).2.2 = false := by
+  unfold handleEndMessage
+  simp only
+  split
+  · split
+    · exact reportError_no_panic w st _
+    · rfl
+  · split
+    · exact reportError_no_panic w st _
+    · exact reportEnd_no_panic w st _
+
+theorem twFlushMessage_no_panic (w : World) (tb : Tables) (st : St) (t : TW) : (twFlushMessage w tb st t).2.2.2 = false := by
+  unfold twFlushMessage
+  simp only
+  split
+  · have h3 := fun c d => handleEndMessage_no_panic w tb st c d false
+    generalize hr3 : handleEndMessage w tb st _ _ false = r3
+    have h3' : r3.2.2 = false := by rw [← hr3]; exact h3 _ _
+    obtain ⟨s2, er, p2⟩ := r3
+    simp only at h3' ⊢
+    subst h3'
+    split <;> rfl
+  · split
+    · rfl
+    · rename_i out _
+      split
+      · split
+        · simp only [Option.isSome_some, Bool.true_or, if_true]
+        · have h1 := writeDown_no_panic w st
+          generalize hr1 : writeDown w st _ = r1
+          have h1' : r1.2.2 = false := by rw [← hr1]; exact h1 _
+          obtain ⟨s1, f1, p1⟩ := r1
+          simp only at h1' ⊢
+          subst h1'
+          cases f1 <;> simp only [Bool.false_eq_true, if_false, if_true, Option.isSome_none, Option.isSome_some, Bool.true_or, Bool.false_or, Bool.or_false]
+          have h2 := writeDown_no_panic w s1 out
+          generalize writeDown w s1 out = r2 at h2 ⊢
+          obtain ⟨s2, f2, p2⟩ := r2
+          simp only at h2 ⊢
+          subst h2
+          split <;> rfl
+      · simp only [Option.isSome_none, Bool.false_or, Bool.false_eq_true, if_false]
+        have h2 := writeDown_no_panic w st out
+        generalize writeDown w st out = r2 at h2 ⊢
+        obtain ⟨s2, f2, p2⟩ := r2
+        simp only at h2 ⊢
+        subst h2
+        split <;> rfl
+
+/-- Well-formedness of the re-encoding writer inside its enveloped loop: the backend's protocol has
+    envelopes; while an envelope is collected five bytes are expected and fewer are there; while a
+    message is collected no more than announced is there. -/
+def TwWf (o : Op) (t : TW) : Prop :=
+  t.err = false →
+    o.serverEnveloper.isSome = true ∧
+    (t.writingEnvelope = true → t.expecting = 5 ∧ (t.buffer.getD []).length < 5) ∧
+    (t.writingEnvelope = false → ((t.buffer.getD []).length : Int) ≤ t.expecting)
+
+theorem TwWf.latched (o : Op) (t : TW) (h : t.err = true) : TwWf o t := by
+  intro h'; rw [h] at h'; cases h'
+
+theorem list_len5 {α : Type} (l : List α) (h : l.length = 5) : ∃ f a b c d, l = [f, a, b, c, d] := by
+  match l, h with
+  | [f, a, b, c, d], _ => exact ⟨f, a, b, c, d, rfl⟩
+
+theorem twReset_wf (st : St) (t : TW) (o : Op) (ho : st.op = o) (hs : o.serverEnveloper.isSome = true) : TwWf o (twReset st t) := by
+  unfold twReset
+  rw [ho, hs]
+  simp only [if_true]
+  intro _
+  exact ⟨hs, fun _ => ⟨rfl, by simp⟩, fun h => by simp at h⟩
+
+/-- The writer `flushMessage` hands back: the old one (possibly latched) or a reset one. -/
+theorem twFlushMessage_writer_wf (w : World) (tb : Tables) (st : St) (t : TW) (hwf : TwWf st.op t)
+    (hs : st.op.serverEnveloper.isSome = true) : TwWf st.op (twFlushMessage w tb st t).2.1 := by
+  have hl : ∀ (b : Bool), TwWf st.op { t with err := t.err || b } := by
+    intro b
+    cases b
+    · simpa using hwf
+    · exact TwWf.latched _ _ (by simp)
+  unfold twFlushMessage
+  simp only
+  split
+  · split
+    · exact hwf
+    · exact TwWf.latched _ _ rfl
+  · split
+    · exact hwf
+    · rename_i out _
+      cases hce : st.op.clientEnveloper with
+      | none =>
+        simp only [Option.isSome_none, Bool.false_eq_true, if_false, Bool.or_self]
+        have h2 := writeDown_hw w st out
+        generalize writeDown w st out = r2 at h2 ⊢
+        obtain ⟨s2, f2, p2⟩ := r2
+        simp only at h2 ⊢
+        split
+        · exact TwWf.latched _ _ rfl
+        · exact twReset_wf _ t _ (by rw [(flushMessage_hw s2).op, h2.op]) hs
+      | some ce =>
+        simp only
+        split
+        · simp only [Option.isSome_some, Bool.true_or, if_true]
+          simpa using hl false
+        · have h1 := writeDown_hw w st
+          generalize hr1 : writeDown w st _ = r1
+          have h1' : HW st r1.1 := by rw [← hr1]; exact h1 _
+          obtain ⟨s1, f1, p1⟩ := r1
+          simp only at h1' ⊢
+          cases f1 <;> simp only [Bool.false_eq_true, if_false, if_true, Option.isSome_none, Option.isSome_some, Bool.true_or, Bool.false_or, Bool.or_false]
+          rotate_left
+          · exact TwWf.latched _ _ (by simp)
+          split
+          · simpa using hl false
+          · have h2 := writeDown_hw w s1 out
+            generalize writeDown w s1 out = r2 at h2 ⊢
+            obtain ⟨s2, f2, p2⟩ := r2
+            simp only at h2 ⊢
+            split
+            · exact TwWf.latched _ _ rfl
+            · exact twReset_wf _ t _ (by rw [(flushMessage_hw s2).op, h2.op, h1'.op]) hs
+
+/-- **The loop of `transformingWriter.Write` never panics** - no slice out of range, no missing
+    envelope decoder, no exhausted fuel - and hands back a well-formed writer, for any bytes. -/
+theorem twLoop_safe (w : World) (tb : Tables) : ∀ (n : Nat) (st : St) (t : TW) (data : Bytes),
+    TwWf st.op t → muT t data < n →
+    (twLoop w tb n st t data).2.2.2 = false ∧ TwWf st.op (twLoop w tb n st t data).2.1 := by
+  intro n
+  induction n with
+  | zero => intro _ _ _ _ h; omega
+  | succ m ih =>
+    intro st t data hwf hmu
+    unfold twLoop
+    by_cases herr : t.err = true
+    · rw [if_pos herr]; exact ⟨rfl, hwf⟩
+    · have herrf : t.err = false := by simpa using herr
+      obtain ⟨hsrv, henv, hbody⟩ := hwf herrf
+      simp only [herr, Bool.false_eq_true, if_false]
+      have hnn : ¬ (t.expecting - ((t.buffer.getD []).length : Int)) < 0 := by
+        cases hw : t.writingEnvelope with
+        | true => have := henv hw; omega
+        | false => have := hbody hw; omega
+      simp only [hnn, if_false]
+      by_cases hlt : (data.length : Int) < t.expecting - ((t.buffer.getD []).length : Int)
+      · rw [if_pos hlt]
+        refine ⟨rfl, fun _ => ⟨hsrv, fun hw => ?_, fun hw => ?_⟩⟩
+        · have := henv hw
+          simp only [Option.getD_some, List.length_append]
+          omega
+        · have := hbody hw
+          simp only [Option.getD_some, List.length_append]
+          omega
+      · simp only [hlt, if_false]
+        have hrest : (data.drop (t.expecting - ((t.buffer.getD []).length : Int)).toNat).length
+            = data.length - (t.expecting - ((t.buffer.getD []).length : Int)).toNat := List.length_drop
+        have htake : (data.take (t.expecting - ((t.buffer.getD []).length : Int)).toNat).length
+            = (t.expecting - ((t.buffer.getD []).length : Int)).toNat := by
+          rw [List.length_take]; omega
+        by_cases hw : t.writingEnvelope = true
+        · obtain ⟨hexp, hgot⟩ := henv hw
+          simp only [hw, if_true]
+          split
+          · have wf0 : ∀ (t' : TW), t'.writingEnvelope = true → t'.expecting = 5 → t'.buffer = some [] → TwWf st.op t' := by
+              intro t' h1 h2 h3 _
+              exact ⟨hsrv, fun _ => ⟨h2, by simp [h3]⟩, fun h => by rw [h1] at h; cases h⟩
+            split
+            · exact ⟨reportError_no_panic w st _, wf0 _ rfl hexp rfl⟩
+            · split
+              · exact ⟨reportError_no_panic w st _, wf0 _ rfl hexp rfl⟩
+              · apply ih
+                · intro _
+                  exact ⟨hsrv, fun h => by simp at h, fun _ => by simp⟩
+                · unfold muT at hmu ⊢
+                  simp only [hw, if_true, Bool.false_eq_true, if_false, hrest] at hmu ⊢
+                  rw [hexp]
+                  omega
+          · rename_i hno
+            exfalso
+            obtain ⟨se, hse⟩ := Option.isSome_iff_exists.mp hsrv
+            have hl : ((t.buffer.getD []) ++ data.take (t.expecting - ((t.buffer.getD []).length : Int)).toNat).length = 5 := by
+              rw [List.length_append, htake, hexp]; omega
+            obtain ⟨f, a, b, c, d, h5⟩ := list_len5 _ hl
+            exact hno se f a b c d hse (by simp only [h5])
+        · have hwf' : t.writingEnvelope = false := by simpa using hw
+          have hb := hbody hwf'
+          simp only [hwf', Bool.false_eq_true, if_false]
+          have wfFilled : ∀ (t' : TW), t'.writingEnvelope = false → t'.expecting = t.expecting →
+              t'.buffer = some ((t.buffer.getD []) ++ data.take (t.expecting - ((t.buffer.getD []).length : Int)).toNat) →
+              TwWf st.op t' := by
+            intro t' h1 h2 h3 _
+            refine ⟨hsrv, fun h => (by rw [h1] at h; cases h), fun _ => ?_⟩
+            simp only [h3, h2, Option.getD_some, List.length_append, htake]
+            omega
+          have hwr := fun tt => twFlushMessage_writer w tb st tt
+          have hnp := fun tt => twFlushMessage_no_panic w tb st tt
+          have hop := fun tt => (twFlushMessage_hw w tb st tt).op
+          generalize hr : twFlushMessage w tb st _ = r
+          have hwr' : r.2.2.1 = none → r.2.2.2 = false → (r.2.1.err = true ∨ r.2.1.buffer = some []) := by
+            rw [← hr]; exact hwr _
+          have hnp' : r.2.2.2 = false := by rw [← hr]; exact hnp _
+          have hop' : r.1.op = st.op := by rw [← hr]; exact hop _
+          have hwt : TwWf st.op r.2.1 := by
+            rw [← hr]; exact twFlushMessage_writer_wf w tb st _ (wfFilled _ rfl rfl rfl) hsrv
+          clear hwr hnp hop
+          have hwr := hwr'
+          have hnp := hnp'
+          have hop := hop'
+          clear hwr' hnp' hop'
+          obtain ⟨s1, t1, err, p⟩ := r
+          simp only at hwr hnp hwt hop ⊢
+          subst hnp
+          simp only [Bool.false_eq_true, if_false]
+          cases err with
+          | some e =>
+            simp only
+            exact ⟨reportError_no_panic w s1 _, hwt⟩
+          | none =>
+            simp only
+            split
+            · exact ⟨rfl, hwt⟩
+            · have := ih s1 { t1 with expecting := 5, writingEnvelope := true }
+                (data.drop (t.expecting - ((t.buffer.getD []).length : Int)).toNat) ?_ ?_
+              · rw [hop] at this; exact this
+              · intro herr1
+                rw [hop]
+                refine ⟨hsrv, fun _ => ⟨rfl, ?_⟩, fun h => by simp at h⟩
+                rcases hwr rfl rfl with hl | he
+                · simp only at herr1; rw [hl] at herr1; cases herr1
+                · simp [he]
+              · unfold muT at hmu ⊢
+                simp only [hwf', Bool.false_eq_true, if_false, if_true, hrest] at hmu ⊢
+                omega
+
+/-- What holds of the re-encoding writer between two `Write` calls. -/
+def TwOk (o : Op) (t : TW) : Prop :=
+  t.err = false → t.buffer.isSome = true →
+    (o.serverEnveloper.isSome = true → TwWf o t) ∧ (o.serverEnveloper.isSome = false → t.expecting = -1)
+
+theorem TwOk.fresh (o : Op) : TwOk o {} := by
+  intro _ h; cases h
+
+theorem TwWf.expecting_ne (o : Op) (t : TW) (h : TwWf o t) (he : t.err = false) : t.expecting ≠ -1 := by
+  obtain ⟨_, henv, hbody⟩ := h he
+  intro hx
+  cases hw : t.writingEnvelope with
+  | true => have := henv hw; omega
+  | false => have := hbody hw; omega
+
+/-- **`transformingWriter.Write` never panics**, whatever the backend writes and however it splits it,
+    and leaves the writer ready for the next call. -/
+theorem twWrite_safe (w : World) (tb : Tables) (st : St) (t : TW) (data : Bytes) (h : TwOk st.op t) :
+    (twWrite w tb st t data).2.2.2 = false ∧ TwOk st.op (twWrite w tb st t data).2.1 := by
+  unfold twWrite
+  by_cases herr : t.err = true
+  · rw [if_pos herr]; exact ⟨rfl, h⟩
+  · have herrf : t.err = false := by simpa using herr
+    rw [if_neg herr]
+    simp only
+    have h1 : TwOk st.op (if t.buffer.isNone = true then twReset st t else t) ∧
+        (if t.buffer.isNone = true then twReset st t else t).err = false ∧
+        (if t.buffer.isNone = true then twReset st t else t).buffer.isSome = true := by
+      split
+      · refine ⟨fun _ _ => ⟨fun hs => twReset_wf st t _ rfl hs, fun hs => ?_⟩, ?_, ?_⟩
+        · unfold twReset; simp [hs]
+        · unfold twReset; split <;> exact herrf
+        · unfold twReset; split <;> rfl
+      · rename_i hb
+        refine ⟨h, herrf, ?_⟩
+        cases hbb : t.buffer with
+        | none => simp [hbb] at hb
+        | some b => rfl
+    generalize (if t.buffer.isNone = true then twReset st t else t) = t1 at h1 ⊢
+    obtain ⟨hok, he1, hb1⟩ := h1
+    obtain ⟨hsome, hnone⟩ := hok he1 hb1
+    by_cases hexp : (t1.expecting == -1) = true
+    · rw [if_pos hexp]
+      have hexp' : t1.expecting = -1 := by simpa using hexp
+      have hns : st.op.serverEnveloper.isSome = false := by
+        cases hs : st.op.serverEnveloper.isSome with
+        | false => rfl
+        | true => exact absurd hexp' (TwWf.expecting_ne _ _ (hsome hs) he1)
+      split
+      · exact ⟨reportError_no_panic w st _, hok⟩
+      · refine ⟨rfl, fun _ _ => ⟨fun hs => ?_, fun _ => hexp'⟩⟩
+        rw [hns] at hs; cases hs
+    · rw [if_neg hexp]
+      have hs : st.op.serverEnveloper.isSome = true := by
+        cases hs : st.op.serverEnveloper.isSome with
+        | true => rfl
+        | false => exact absurd (by simpa using hnone hs) hexp
+      have hmu : muT t1 data < 2 * data.length + 4 := by unfold muT; split <;> omega
+      obtain ⟨hp, hwf⟩ := twLoop_safe w tb _ st t1 data (hsome hs) hmu
+      exact ⟨hp, fun _ _ => ⟨fun _ => hwf, fun hn => by rw [hs] at hn; cases hn⟩⟩
+
+/-! #### the re-framing writer -/
+
+theorem reportEnd_sets_err (w : World) (st : St) (e : RespEnd) (hopen : st.rw.endWritten = false) :
+    (reportEnd w st e).1.rw.err = true := by
+  unfold reportEnd
+  simp only [hopen, Bool.false_eq_true, if_false]
+
+theorem reportError_sets_err (w : World) (st : St) (err : Err) (hopen : st.rw.endWritten = false) :
+    (reportError w st err).1.rw.err = true := by
+  unfold reportError
+  split
+  · rename_i code
+    have := httpStatusFromRPC_isSome code
+    split
+    · rename_i hn; rw [hn] at this; cases this
+    · exact reportEnd_sets_err w st _ hopen
+  · exact reportEnd_sets_err w st _ hopen
+
+theorem writeDown_failed_latched (w : World) (st : St) (b : Bytes) (hopen : st.rw.endWritten = false) :
+    (writeDown w st b).2.1 = true → (writeDown w st b).1.rw.err = true := by
+  unfold writeDown
+  split
+  · split
+    · exact fun _ => reportError_sets_err w st _ hopen
+    · intro h; cases h
+  · intro h; cases h
+
+theorem handleEndMessage_failed_latched (w : World) (tb : Tables) (st : St) (c : Bool) (d : Bytes) (hopen : st.rw.endWritten = false) :
+    (handleEndMessage w tb st c d true).1.rw.err = true := by
+  unfold handleEndMessage
+  simp only
+  split
+  · simp only [if_true]
+    exact reportError_sets_err w st _ hopen
+  · split
+    · exact reportError_sets_err w st _ hopen
+    · exact reportEnd_sets_err w st _ hopen
+
+/-- Well-formedness of the re-framing writer inside its loop: while an envelope is collected, what is
+    there and what is missing make five bytes, and something is missing; while a message is passed on,
+    there is somewhere to pass it and no stale envelope bytes. -/
+def EwWf (e : EW) : Prop :=
+  e.err = false →
+    (e.writingEnvelope = true → (e.env.length : Int) + e.remaining = 5 ∧ 1 ≤ e.remaining) ∧
+    (e.writingEnvelope = false → e.current ≠ .none ∧ e.env = [])
+
+theorem EwWf.latched (e : EW) (h : e.err = true) : EwWf e := by
+  intro h'; rw [h] at h'; cases h'
+
+theorem EwWf.envInv (e : EW) (h : EwWf e) : EnvInv e := fun he hw => ((h he).1 hw).2
+
+/-- One piece: no panic (there is a sink), and what it does to the writer. -/
+theorem ewWritePiece_safe (w : World) (st : St) (e : EW) (piece : Bytes) (hwf : EwWf e) (he : e.err = false) :
+    (ewWritePiece w st e piece).2.2.2 = false ∧
+    (ewWritePiece w st e piece).2.1.err = false ∧
+    (e.writingEnvelope = true → (ewWritePiece w st e piece).2.1.env = e.env ++ piece) ∧
+    (e.writingEnvelope = false → (ewWritePiece w st e piece).2.1.env = [] ∧ (ewWritePiece w st e piece).2.1.current ≠ .none) := by
+  obtain ⟨_, hbody⟩ := hwf he
+  unfold ewWritePiece
+  by_cases hw : e.writingEnvelope = true
+  · rw [if_pos hw]
+    exact ⟨rfl, he, fun _ => rfl, fun h => by rw [hw] at h; cases h⟩
+  · have hwf' : e.writingEnvelope = false := by simpa using hw
+    obtain ⟨hcur, henv⟩ := hbody hwf'
+    rw [if_neg hw]
+    cases hc : e.current with
+    | none => exact absurd hc hcur
+    | down =>
+      simp only
+      have h1 := writeDown_no_panic w st piece
+      generalize writeDown w st piece = r at h1 ⊢
+      obtain ⟨s1, f, p⟩ := r
+      simp only at h1 ⊢
+      exact ⟨h1, he, fun h => absurd h hw, fun _ => ⟨henv, by rw [hc]; simp⟩⟩
+    | trailerBuf b =>
+      exact ⟨rfl, he, fun h => absurd h hw, fun _ => ⟨henv, by simp⟩⟩
+    | limitBuf b =>
+      simp only
+      split
+      · exact ⟨reportError_no_panic w st _, he, fun h => absurd h hw, fun _ => ⟨henv, by rw [hc]; simp⟩⟩
+      · exact ⟨rfl, he, fun h => absurd h hw, fun _ => ⟨henv, by simp⟩⟩
+
+/-- A complete envelope: no panic; on success the writer passes the message on to a sink; on failure
+    the response or the writer is latched. -/
+theorem ewEnvelopeWritten_safe (w : World) (st : St) (e : EW) (hlen : e.env.length = 5) (hopen : st.rw.endWritten = false) :
+    (ewEnvelopeWritten w st e).2.2.2 = false ∧
+    ((ewEnvelopeWritten w st e).2.2.1 = false →
+      (ewEnvelopeWritten w st e).2.1.writingEnvelope = false ∧ (ewEnvelopeWritten w st e).2.1.env = [] ∧
+      (ewEnvelopeWritten w st e).2.1.current ≠ .none) ∧
+    ((ewEnvelopeWritten w st e).2.2.1 = true →
+      (ewEnvelopeWritten w st e).1.rw.err = true ∨ (ewEnvelopeWritten w st e).2.1.err = true) := by
+  unfold ewEnvelopeWritten
+  simp only
+  split
+  · exact ⟨reportError_no_panic w st _, fun h => (by cases h), fun _ => Or.inr rfl⟩
+  · split
+    · split
+      · exact ⟨reportError_no_panic w st _, fun h => (by cases h), fun _ => Or.inl (reportError_sets_err w st _ hopen)⟩
+      · split
+        · split
+          · exact ⟨reportError_no_panic w st _, fun h => (by cases h), fun _ => Or.inl (reportError_sets_err w st _ hopen)⟩
+          · exact ⟨rfl, fun _ => ⟨rfl, rfl, by simp⟩, fun h => by cases h⟩
+        · split
+          · have h1 := writeDown_no_panic w st
+            generalize hr : writeDown w st _ = r
+            have h1' : r.2.2 = false := by rw [← hr]; exact h1 _
+            obtain ⟨s1, f, p⟩ := r
+            simp only at h1' ⊢
+            subst h1'
+            cases f
+            · rw [if_neg Bool.false_ne_true]
+              exact ⟨rfl, fun _ => ⟨rfl, rfl, by simp⟩, fun h => by cases h⟩
+            · rw [if_pos rfl]
+              exact ⟨rfl, fun h => (by cases h), fun _ => Or.inr rfl⟩
+          · rw [if_neg Bool.false_ne_true]
+            exact ⟨rfl, fun _ => ⟨rfl, rfl, by simp⟩, fun h => by cases h⟩
+    · rename_i hno
+      exfalso
+      obtain ⟨f, a, b, c, d, h5⟩ := list_len5 _ hlen
+      exact hno f a b c d h5
+
+/-- **The loop of `envelopingWriter.Write` never panics** - there is always a sink for the bytes, a
+    complete envelope always has five bytes, the fuel is never exhausted - and afterwards the
+    response is latched in an error or the writer is well-formed for the next call. -/
+theorem ewLoop_safe (w : World) (tb : Tables) : ∀ (n : Nat) (st : St) (e : EW) (data : Bytes),
+    EwWf e → (st.rw.endWritten = false ∨ e.err = true) → mu e data < n →
+    (ewLoop w tb n st e data).2.2.2 = false ∧
+    ((ewLoop w tb n st e data).1.rw.err = true ∨ EwWf (ewLoop w tb n st e data).2.1) := by
+  intro n
+  induction n with
+  | zero => intro _ _ _ _ _ h; omega
+  | succ m ih =>
+    intro st e data hwf hpre hmu
+    unfold ewLoop
+    by_cases herr : e.err = true
+    · rw [if_pos herr]; exact ⟨rfl, Or.inr hwf⟩
+    · have herrf : e.err = false := by simpa using herr
+      have hopen : st.rw.endWritten = false := by
+        cases hpre with
+        | inl h => exact h
+        | inr h => exact absurd h herr
+      obtain ⟨henv, hbody⟩ := hwf herrf
+      rw [if_neg herr]
+      by_cases hlt : (data.length : Int) < e.remaining
+      · rw [if_pos hlt]
+        obtain ⟨hp, he1, hE, hB⟩ := ewWritePiece_safe w st e data hwf herrf
+        obtain ⟨hfw, hfr⟩ := ewWritePiece_flags w st e data
+        generalize ewWritePiece w st e data = r1 at hp he1 hE hB hfw hfr ⊢
+        obtain ⟨s1, e1, f1, p1⟩ := r1
+        simp only at hp he1 hE hB hfw hfr ⊢
+        refine ⟨hp, Or.inr ?_⟩
+        intro herr'
+        simp only at herr'
+        refine ⟨fun hw => ?_, fun hw => ?_⟩
+        · simp only at hw
+          rw [hfw] at hw
+          have := henv hw
+          simp only [hE hw, hfr, List.length_append]
+          omega
+        · simp only at hw
+          rw [hfw] at hw
+          exact ⟨(hB hw).2, (hB hw).1⟩
+      · rw [if_neg hlt]
+        simp only
+        have hrest : (data.drop e.remaining.toNat).length = data.length - e.remaining.toNat := List.length_drop
+        have htake : (data.take e.remaining.toNat).length = e.remaining.toNat := by
+          rw [List.length_take]; omega
+        obtain ⟨hp, he1, hE, hB⟩ := ewWritePiece_safe w st e (data.take e.remaining.toNat) hwf herrf
+        obtain ⟨hfw, hfr⟩ := ewWritePiece_flags w st e (data.take e.remaining.toNat)
+        have hop1 := ewWritePiece_open w st e (data.take e.remaining.toNat) hopen
+        generalize ewWritePiece w st e (data.take e.remaining.toNat) = r1 at hp he1 hE hB hfw hfr hop1 ⊢
+        obtain ⟨s1, e1, f1, p1⟩ := r1
+        simp only at hp he1 hE hB hfw hfr hop1 ⊢
+        subst hp
+        cases f1 with
+        | true => rw [if_pos (show (true || false) = true from rfl)]; exact ⟨rfl, Or.inr (EwWf.latched _ rfl)⟩
+        | false =>
+          rw [if_neg (show ¬ (false || false) = true by decide)]
+          have hs1 := hop1 rfl
+          by_cases hw : e.writingEnvelope = true
+          · obtain ⟨hsum, hone⟩ := henv hw
+            have hw1 : e1.writingEnvelope = true := by rw [hfw]; exact hw
+            rw [if_pos hw1]
+            have hlen : ({ e1 with remaining := e1.remaining - ↑e.remaining.toNat } : EW).env.length = 5 := by
+              simp only [hE hw, List.length_append, htake]; omega
+            obtain ⟨hp2, hok2, hbad2⟩ := ewEnvelopeWritten_safe w s1 { e1 with remaining := e1.remaining - ↑e.remaining.toNat } hlen hs1
+            have hop2 := ewEnvelopeWritten_open w s1 { e1 with remaining := e1.remaining - ↑e.remaining.toNat } hs1
+            generalize ewEnvelopeWritten w s1 { e1 with remaining := e1.remaining - ↑e.remaining.toNat } = r2 at hp2 hok2 hbad2 hop2 ⊢
+            obtain ⟨s2, e2, f2, p2⟩ := r2
+            simp only at hp2 hok2 hbad2 hop2 ⊢
+            subst hp2
+            cases f2 with
+            | true =>
+              rw [if_pos (show (true || false) = true from rfl)]
+              refine ⟨rfl, ?_⟩
+              rcases hbad2 rfl with h | h
+              · exact Or.inl h
+              · exact Or.inr (EwWf.latched _ h)
+            | false =>
+              rw [if_neg (show ¬ (false || false) = true by decide)]
+              obtain ⟨h2w, h2e, h2c⟩ := hok2 rfl
+              apply ih
+              · intro _
+                exact ⟨fun h => (by rw [h2w] at h; cases h), fun _ => ⟨h2c, h2e⟩⟩
+              · exact Or.inl (hop2 rfl)
+              · unfold mu at hmu ⊢
+                simp only [hw, h2w, if_true, Bool.false_eq_true, if_false, hrest] at hmu ⊢
+                omega
+          · have hwf' : e.writingEnvelope = false := by simpa using hw
+            have hw1 : e1.writingEnvelope = false := by rw [hfw]; exact hwf'
+            obtain ⟨h1env, h1cur⟩ := hB hwf'
+            rw [if_neg (by simp [hw1])]
+            by_cases ht : e1.currentIsTrailer = true
+            · rw [if_pos ht]
+              split
+              · have hnp := fun c d => handleEndMessage_no_panic w tb s1 c d true
+                have hl := fun c d => handleEndMessage_failed_latched w tb s1 c d hs1
+                generalize hr3 : handleEndMessage w tb s1 _ _ true = r3
+                have hnp' : r3.2.2 = false := by rw [← hr3]; exact hnp _ _
+                have hl' : r3.1.rw.err = true := by rw [← hr3]; exact hl _ _
+                obtain ⟨s2, er, p2⟩ := r3
+                simp only at hnp' hl' ⊢
+                subst hnp'
+                split
+                · exact ⟨rfl, Or.inl hl'⟩
+                · split
+                  · exact ⟨rfl, Or.inr (EwWf.latched _ rfl)⟩
+                  · have hm : ∃ m', m = m' + 1 := by
+                      unfold mu at hmu; simp only [hwf', Bool.false_eq_true, if_false] at hmu
+                      exact ⟨m - 1, by omega⟩
+                    obtain ⟨m', rfl⟩ := hm
+                    rw [ewLoop_err w tb m' _ _ _ rfl]
+                    exact ⟨rfl, Or.inr (EwWf.latched _ rfl)⟩
+              · refine ⟨rfl, Or.inr ?_⟩
+                intro _
+                exact ⟨fun h => (by simp only at h; rw [hw1] at h; cases h), fun _ => ⟨h1cur, h1env⟩⟩
+            · rw [if_neg ht]
+              apply ih
+              · intro _
+                refine ⟨fun _ => ?_, fun h => by simp at h⟩
+                simp only [h1env, List.length_nil]
+                omega
+              · left; rw [flushMessage_open]; exact hs1
+              · unfold mu at hmu ⊢
+                simp only [hwf', if_true, Bool.false_eq_true, if_false, hrest] at hmu ⊢
+                omega
+
+/-- What holds of the re-framing writer between two `Write` calls. -/
+def EwOk (e : EW) : Prop :=
+  (e.initialized = true → EwWf e) ∧ (e.initialized = false → e.env = [] ∧ e.writingEnvelope = false)
+
+theorem EwOk.fresh : EwOk {} := ⟨fun h => (by cases h), fun _ => ⟨rfl, rfl⟩⟩
+
+theorem EwOk.of_wf (e : EW) (hi : e.initialized = true) (h : EwWf e) : EwOk e :=
+  ⟨fun _ => h, fun h' => by rw [hi] at h'; cases h'⟩
+
+theorem ewInit_safe (w : World) (st : St) (e : EW) (hok : EwOk e) :
+    (ewInit w st e).2.2 = false ∧ EwWf (ewInit w st e).2.1 := by
+  unfold ewInit
+  by_cases hi : e.initialized = true
+  · rw [if_pos hi]; exact ⟨rfl, hok.1 hi⟩
+  · rw [if_neg hi]
+    obtain ⟨henv, hwe⟩ := hok.2 (by simpa using hi)
+    simp only
+    split
+    · refine ⟨rfl, fun _ => ⟨fun _ => ?_, fun h => by simp at h⟩⟩
+      simp [henv]
+    · split
+      · exact ⟨rfl, fun _ => ⟨fun h => (by simp only at h; rw [hwe] at h; cases h), fun _ => ⟨by simp, henv⟩⟩⟩
+      · split
+        · exact ⟨rfl, fun _ => ⟨fun h => (by simp only at h; rw [hwe] at h; cases h), fun _ => ⟨by simp, henv⟩⟩⟩
+        · split
+          · exact ⟨reportError_no_panic w st _, EwWf.latched _ rfl⟩
+          · have h1 := writeDown_no_panic w st
+            generalize hr : writeDown w st _ = r
+            have h1' : r.2.2 = false := by rw [← hr]; exact h1 _
+            obtain ⟨s1, f, p⟩ := r
+            simp only at h1' ⊢
+            subst h1'
+            split
+            · exact ⟨rfl, EwWf.latched _ rfl⟩
+            · exact ⟨rfl, fun _ => ⟨fun h => (by simp only at h; rw [hwe] at h; cases h), fun _ => ⟨by simp, henv⟩⟩⟩
+
+/-- **`envelopingWriter.Write` never panics** while the RPC is open, whatever the backend writes and
+    however it splits it; afterwards the response is latched in an error or the writer is ready for the
+    next call. -/
+theorem ewWrite_safe (w : World) (tb : Tables) (st : St) (e : EW) (data : Bytes) (hok : EwOk e)
+    (hopen : st.rw.endWritten = false) :
+    (ewWrite w tb st e data).2.2.2 = false ∧
+    ((ewWrite w tb st e data).1.rw.err = true ∨ EwOk (ewWrite w tb st e data).2.1) := by
+  have hinit := ewWrite_initialized w tb st e data
+  suffices h : (ewWrite w tb st e data).2.2.2 = false ∧
+      ((ewWrite w tb st e data).1.rw.err = true ∨ EwWf (ewWrite w tb st e data).2.1) by
+    refine ⟨h.1, ?_⟩
+    rcases h.2 with h2 | h2
+    · exact Or.inl h2
+    · exact Or.inr (EwOk.of_wf _ hinit h2)
+  unfold ewWrite
+  obtain ⟨hp0, hwf0⟩ := ewInit_safe w st e hok
+  have hop0 := ewInit_open w st e hopen
+  generalize ewInit w st e = r0 at hp0 hwf0 hop0 ⊢
+  obtain ⟨s0, e0, p0⟩ := r0
+  simp only at hp0 hwf0 hop0 ⊢
+  subst hp0
+  rw [if_neg Bool.false_ne_true]
+  by_cases herr : e0.err = true
+  · rw [if_pos herr]; exact ⟨rfl, Or.inr hwf0⟩
+  · have herrf : e0.err = false := by simpa using herr
+    rw [if_neg herr]
+    have hs0 := hop0 herrf
+    by_cases hrem : (e0.remaining == -1) = true
+    · rw [if_pos hrem]
+      have hrem' : e0.remaining = -1 := by simpa using hrem
+      have hw0 : e0.writingEnvelope = false := by
+        cases hw : e0.writingEnvelope with
+        | false => rfl
+        | true => have := ((hwf0 herrf).1 hw).2; omega
+      obtain ⟨hp, he1, _, hB⟩ := ewWritePiece_safe w s0 e0 data hwf0 herrf
+      obtain ⟨hfw, _⟩ := ewWritePiece_flags w s0 e0 data
+      generalize ewWritePiece w s0 e0 data = r1 at hp he1 hB hfw ⊢
+      obtain ⟨s1, e1, f1, p1⟩ := r1
+      simp only at hp he1 hB hfw ⊢
+      refine ⟨hp, Or.inr ?_⟩
+      intro _
+      exact ⟨fun h => (by simp only at h; rw [hfw, hw0] at h; cases h), fun _ => ⟨(hB hw0).2, (hB hw0).1⟩⟩
+    · rw [if_neg hrem]
+      have hmu : mu e0 data < 2 * data.length + 4 := by unfold mu; split <;> omega
+      exact ewLoop_safe w tb _ s0 e0 data hwf0 (Or.inl hs0) hmu
+
+/-! #### `responseWriter.WriteHeader` / `Write` over whole handler scripts -/
+
+/-- The body writer installed in the response writer is ready for a `Write`. -/
+def WriterOk (st : St) : Prop :=
+  match st.rw.w with
+  | .unset => False
+  | .enveloping e => EwOk e
+  | .transforming t => TwOk st.op t
+  | _ => True
+
+/-- The invariant of a run that makes `Write` safe: the response is consistent (`Good`, C03), and once
+    `WriteHeader` ran either the response is latched in an error or a well-formed body writer is installed. -/
+structure Ready (st : St) : Prop where
+  good : Good st
+  ready : st.rw.headersWritten = true → st.rw.err = true ∨ WriterOk st
+
+theorem Ready.of_ended_or {st : St} (hg : Good st) (h : st.rw.headersWritten = true → st.rw.endWritten = true ∨ WriterOk st) :
+    Ready st :=
+  ⟨hg, fun hh => by
+    rcases h hh with he | hw
+    · exact Or.inl (hg.ended he).1
+    · exact Or.inr hw⟩
+
+theorem reportError_ready (w : World) (st : St) (err : Err) (h : Ready st) : Ready (reportError w st err).1 :=
+  Ready.of_ended_or (reportError_ev w st err h.good).1 (fun _ => Or.inl (reportError_ends w st err))
+
+theorem reach_ready {w : World} {a b : St} (r : RdReach w a b) (h : Ready a) : Ready b := by
+  induction r with
+  | refl => exact h
+  | @src b' _ s ih => exact ⟨(srcUpdate_ev b' s ih.good).1, ih.ready⟩
+  | err _ e ih => exact reportError_ready w _ e ih
+
+theorem setHdr_ready (st : St) (hd : Hdr) (h : Ready st) : Ready (st.setHdr hd) := by
+  refine ⟨(setHdr_ev st hd h.good).1, ?_⟩
+  have hrw : (st.setHdr hd).rw = st.rw := by unfold St.setHdr; split <;> rfl
+  have hop : (st.setHdr hd).op = st.op := by unfold St.setHdr; split <;> rfl
+  intro hh
+  rw [hrw] at hh
+  rcases h.ready hh with he | hw
+  · left; rw [hrw]; exact he
+  · right; unfold WriterOk at hw ⊢; rw [hrw, hop]; exact hw
+
+theorem rwChooseWriter_no_panic (w : World) (st : St) (rm : RespMeta) (eb : EndBody) : (rwChooseWriter w st rm eb).2 = false := by
+  unfold rwChooseWriter
+  generalize (if rm.compression == identityName then [] else rm.compression) = comp
+  simp only
+  split
+  · exact reportError_no_panic w st _
+  · split
+    · split
+      · rfl
+      · exact flushHeaders_no_panic w _
+    · split
+      · exact reportError_no_panic w _ _
+      · unfold rwStartBody
+        simp only
+        split
+        · rfl
+        · exact flushHeaders_no_panic w _
+
+theorem rwWriteHeader_no_panic (w : World) (tb : Tables) (st : St) (c : Nat) : (rwWriteHeader w tb st c).2 = false := by
+  unfold rwWriteHeader
+  split
+  · rfl
+  · simp only
+    split
+    · rfl
+    · split
+      · exact reportError_no_panic w _ _
+      · generalize rwPrepareMeta tb _ c _ _ = r
+        obtain ⟨s5, rm, eb⟩ := r
+        exact rwChooseWriter_no_panic w s5 rm eb
+
+theorem rwChooseWriter_writer (w : World) (st : St) (rm : RespMeta) (eb : EndBody) :
+    (rwChooseWriter w st rm eb).1.rw.endWritten = true ∨ WriterOk (rwChooseWriter w st rm eb).1 := by
+  unfold rwChooseWriter
+  generalize (if rm.compression == identityName then [] else rm.compression) = comp
+  simp only
+  split
+  · exact Or.inl (reportError_ends w st _)
+  · split
+    · split
+      · right; unfold WriterOk rwSetWriter; trivial
+      · right; unfold WriterOk rwSetWriter; trivial
+    · split
+      · exact Or.inl (reportError_ends w _ _)
+      · right
+        unfold rwStartBody
+        simp only
+        unfold WriterOk rwSetWriter
+        simp only
+        split
+        · rename_i hh; split at hh <;> cases hh
+        · rename_i e hh
+          split at hh
+          · cases hh; exact EwOk.fresh
+          · cases hh
+        · rename_i t hh
+          split at hh
+          · cases hh
+          · cases hh; exact TwOk.fresh _
+        · trivial
+
+/-- `WriteHeader` never panics and keeps the invariant. -/
+theorem rwWriteHeader_ready (w : World) (tb : Tables) (st : St) (c : Nat) (h : Ready st) :
+    Ready (rwWriteHeader w tb st c).1 := by
+  by_cases hwr : st.rw.headersWritten = true
+  · have : rwWriteHeader w tb st c = (st, false) := by unfold rwWriteHeader; rw [if_pos hwr]
+    rw [this]; exact h
+  refine Ready.of_ended_or (rwWriteHeader_ev w tb st c h.good).1 ?_
+  unfold rwWriteHeader
+  split
+  · rename_i hh; exact absurd hh hwr
+  · simp only
+    split
+    · rename_i he; exact fun _ => Or.inl he
+    · split
+      · exact fun _ => Or.inl (reportError_ends w _ _)
+      · generalize rwPrepareMeta tb _ c _ _ = r
+        obtain ⟨s5, rm, eb⟩ := r
+        exact fun _ => rwChooseWriter_writer w s5 rm eb
+
+theorem setHdr_rw (st : St) (h : Hdr) : (st.setHdr h).rw = st.rw := by
+  unfold St.setHdr; split <;> rfl
+
+theorem rwPrepareMeta_hw (tb : Tables) (st : St) (status : Nat) (cl : Int) (clText : Bytes) :
+    (rwPrepareMeta tb st status cl clText).1.rw.headersWritten = st.rw.headersWritten := by
+  unfold rwPrepareMeta
+  simp only [setHdr_rw]
+  split <;> split <;> simp [setHdr_rw]
+
+theorem rwChooseWriter_hw (w : World) (st : St) (rm : RespMeta) (eb : EndBody) :
+    (rwChooseWriter w st rm eb).1.rw.headersWritten = st.rw.headersWritten := by
+  unfold rwChooseWriter
+  generalize (if rm.compression == identityName then [] else rm.compression) = comp
+  simp only
+  have hs : (rwSetRespComp st comp).rw.headersWritten = st.rw.headersWritten := by
+    unfold rwSetRespComp; split <;> rfl
+  split
+  · exact (reportError_hw w st _).hw
+  · split
+    · split
+      · exact hs
+      · exact ((flushHeaders_hw w _).hw).trans hs
+    · split
+      · exact ((reportError_hw w _ _).hw).trans hs
+      · unfold rwStartBody rwSetWriter
+        simp only
+        split
+        · exact hs
+        · exact ((flushHeaders_hw w _).hw).trans hs
+
+theorem rwWriteHeader_written (w : World) (tb : Tables) (st : St) (c : Nat) :
+    (rwWriteHeader w tb st c).1.rw.headersWritten = true := by
+  unfold rwWriteHeader
+  split
+  · assumption
+  · simp only
+    split
+    · rfl
+    · split
+      · exact (reportError_hw w _ _).hw
+      · rename_i cl _
+        have h1 := fun t => rwPrepareMeta_hw tb ({ st with rw := { st.rw with headersWritten := true, statusCode := c } } : St) c cl t
+        generalize hr : rwPrepareMeta tb _ c cl _ = r
+        have h1' : r.1.rw.headersWritten = true := by rw [← hr]; exact h1 _
+        obtain ⟨s5, rm, eb⟩ := r
+        simp only at h1' ⊢
+        exact (rwChooseWriter_hw w s5 rm eb).trans h1'
+
+/-- **`responseWriter.Write` never panics** in a state reachable by a handler, and keeps the invariant:
+    any bytes, split anywhere, errors of the backend's framing included. -/
+theorem rwWrite_safe (w : World) (tb : Tables) (st : St) (data : Bytes) (h : Ready st) :
+    (rwWrite w tb st data).2.2 = false ∧ Ready (rwWrite w tb st data).1 := by
+  have hgood : Good (rwWrite w tb st data).1 := (rwWrite_ev w tb st data h.good).1
+  suffices hs : (rwWrite w tb st data).2.2 = false ∧
+      ((rwWrite w tb st data).1.rw.headersWritten = true →
+        (rwWrite w tb st data).1.rw.err = true ∨ WriterOk (rwWrite w tb st data).1) from ⟨hs.1, hgood, hs.2⟩
+  clear hgood
+  unfold rwWrite
+  have h0 : Ready (if st.rw.headersWritten = true then (st, false) else rwWriteHeader w tb st 200).1 ∧
+      (if st.rw.headersWritten = true then (st, false) else rwWriteHeader w tb st 200).2 = false ∧
+      (if st.rw.headersWritten = true then (st, false) else rwWriteHeader w tb st 200).1.rw.headersWritten = true := by
+    split
+    · exact ⟨h, rfl, by assumption⟩
+    · exact ⟨rwWriteHeader_ready w tb st 200 h, rwWriteHeader_no_panic w tb st 200, rwWriteHeader_written w tb st 200⟩
+  generalize (if st.rw.headersWritten = true then (st, false) else rwWriteHeader w tb st 200) = r0 at h0 ⊢
+  obtain ⟨hR, hp0, hW⟩ := h0
+  simp only
+  rw [hp0, if_neg Bool.false_ne_true]
+  by_cases herr : r0.1.rw.err = true
+  · rw [if_pos herr]; exact ⟨rfl, fun _ => Or.inl herr⟩
+  · rw [if_neg herr]
+    have herrf : r0.1.rw.err = false := by simpa using herr
+    have hopen := hR.good.live_open herrf
+    have hwo : WriterOk r0.1 := by
+      rcases hR.ready hW with he | hw
+      · exact absurd he herr
+      · exact hw
+    unfold WriterOk at hwo
+    split
+    · rename_i e hw
+      rw [hw] at hwo
+      obtain ⟨hp, hres⟩ := ewWrite_safe w tb r0.1 e data hwo hopen
+      refine ⟨hp, fun _ => ?_⟩
+      rcases hres with he | hok
+      · exact Or.inl he
+      · right; unfold WriterOk; exact hok
+    · rename_i t hw
+      rw [hw] at hwo
+      obtain ⟨hp, hok⟩ := twWrite_safe w tb r0.1 t data hwo
+      refine ⟨hp, fun _ => Or.inr ?_⟩
+      unfold WriterOk
+      show TwOk (twWrite w tb r0.1 t data).1.op _
+      rw [(twWrite_hw w tb r0.1 t data).op]; exact hok
+    · rename_i body kind hw
+      split
+      · exact ⟨rfl, fun _ => Or.inr (by unfold WriterOk; rw [hw]; trivial)⟩
+      · split
+        · refine ⟨reportError_no_panic w r0.1 _, fun _ => Or.inl ?_⟩
+          exact reportError_sets_err w r0.1 _ hopen
+        · exact ⟨rfl, fun _ => Or.inr (by unfold WriterOk; trivial)⟩
+    · rename_i hw
+      exact ⟨rfl, fun _ => Or.inr (by unfold WriterOk; rw [hw]; trivial)⟩
+    · rename_i hw
+      rw [hw] at hwo; exact absurd hwo id
+
+theorem foldl_ready {β : Type} (g : Flight × β → BOp → Flight × β) (hg : ∀ acc op, Ready acc.1.st → Ready (g acc op).1.st) :
+    ∀ (l : List BOp) (acc : Flight × β), Ready acc.1.st → Ready (l.foldl g acc).1.st := by
+  intro l
+  induction l with
+  | nil => intro acc h; exact h
+  | cons x xs ih => intro acc h; simp only [List.foldl_cons]; exact ih _ (hg acc x h)
+
+/-- **Every handler script keeps the invariant** (any reads of any size, header changes,
+    `WriteHeader`, `Write` with any bytes, `Flush`, `Close`, stopped anywhere) ... -/
+theorem runScript_ready (w : World) (tb : Tables) (pl : HandlePlan) (script : List BOp) (total0 : Nat) (f : Flight)
+    (h : Ready f.st) : Ready (runScript w tb pl script total0 f).1.st := by
+  unfold runScript
+  refine foldl_ready (β := BackendObs) _ ?_ script (f, ({} : BackendObs)) h
+  intro acc op hacc
+  obtain ⟨f1, b1⟩ := acc
+  simp only at hacc ⊢
+  split
+  · exact hacc
+  · split
+    · exact reach_ready (flightReadN_reach w pl _ _ true _ f1 0 _ _) hacc
+    · exact reach_ready (flightReadN_reach w pl _ _ false _ f1 0 _ _) hacc
+    · exact reach_ready (flightReadAll_reach w pl _ _ f1 _) hacc
+    · exact setHdr_ready _ _ hacc
+    · exact setHdr_ready _ _ hacc
+    · exact rwWriteHeader_ready w tb f1.st _ hacc
+    · exact (rwWrite_safe w tb f1.st _ hacc).2
+    · exact hacc
+    · exact hacc
+
+/-- ... so **no `WriteHeader` and no `Write` of any handler ever panics**: whatever the handler did
+    before - in the state after any script, from the state `ServeHTTP` hands to the handler - the next
+    `Write` (any bytes) and the next `WriteHeader` (any status) return without a panic. -/
+theorem handler_writes_never_panic (w : World) (tb : Tables) (pl : HandlePlan) (script : List BOp) (total0 : Nat)
+    (st : St) (skip : Bool) (rd : Reader) (hrw : st.rw = {}) (hs : st.sink = {}) (data : Bytes) (code : Nat) :
+    let st' := (runScript w tb pl script total0 { st := transcodeStartState st skip, rd := rd }).1.st
+    (rwWrite w tb st' data).2.2 = false ∧ (rwWriteHeader w tb st' code).2 = false := by
+  intro st'
+  have hg0 : Good st := by
+    have := good_init st.op st.src
+    obtain ⟨o, src, sink, rw, scratch⟩ := st
+    simp only at hrw hs
+    subst hrw hs
+    exact ⟨this.ended, this.opened, this.atMost, this.last⟩
+  have h0 : Ready (transcodeStartState st skip) := by
+    refine ⟨(transcodeStartState_ev st skip hg0).1, fun hh => ?_⟩
+    have : (transcodeStartState st skip).rw.headersWritten = false := by
+      unfold transcodeStartState; simp only; split <;> simp [hrw]
+    rw [this] at hh; cases hh
+  have hr : Ready st' := runScript_ready w tb pl script total0 _ h0
+  exact ⟨(rwWrite_safe w tb st' data hr).1, rwWriteHeader_no_panic w tb st' code⟩
 
 end Vanguard.C11
